@@ -1,6 +1,76 @@
-//! `vh persist`: see /verif/docs/MODULE_CONTRACT.md
+//! `vh persist`: the real file names of persisted items (C14).
+//!
+//! stdin: one JSON request per line
+//!   {"name": "<glyph name>"}                        -> {"file","glyph_ir","anchor_ir","glyf","gvar"}
+//!   {"kern": [["wght", 0.004], ...]}                -> {"kern_file"}
+//! Everything goes through the public path functions of fontdrasil / fontir / fontbe.
+
+use std::{
+    io::{BufRead, Write},
+    path::Path,
+};
+
+use fontdrasil::{
+    coords::{NormalizedCoord, NormalizedLocation},
+    types::GlyphName,
+};
+use serde_json::{Value, json};
+use write_fonts::types::Tag;
+
+fn fname(p: std::path::PathBuf) -> String {
+    p.to_string_lossy().into_owned()
+}
+
+fn one(req: &Value) -> Value {
+    let dir = Path::new("D");
+    if let Some(name) = req.get("name").and_then(|v| v.as_str()) {
+        let gn = GlyphName::new(name);
+        json!({
+            "name": name,
+            "file": fontdrasil::paths::string_to_filename(name, ""),
+            "glyph_ir": fname(fontir::paths::Paths::target_file(dir, &fontir::orchestration::WorkId::Glyph(gn.clone()))),
+            "anchor_ir": fname(fontir::paths::Paths::target_file(dir, &fontir::orchestration::WorkId::Anchor(gn.clone()))),
+            "glyf": fname(fontbe::paths::Paths::target_file(dir, &fontbe::orchestration::WorkId::GlyfFragment(gn.clone()))),
+            "gvar": fname(fontbe::paths::Paths::target_file(dir, &fontbe::orchestration::WorkId::GvarFragment(gn))),
+        })
+    } else if let Some(kern) = req.get("kern").and_then(|v| v.as_array()) {
+        let mut loc = NormalizedLocation::new();
+        for pair in kern {
+            let tag = pair.get(0).and_then(|v| v.as_str()).unwrap_or("wght");
+            let val = pair.get(1).and_then(|v| v.as_f64()).unwrap_or(0.0);
+            if let Ok(tag) = Tag::new_checked(tag.as_bytes()) {
+                loc.insert(tag, NormalizedCoord::new(val));
+            }
+        }
+        json!({
+            "kern": kern,
+            "kern_file": fname(fontir::paths::Paths::target_file(dir, &fontir::orchestration::WorkId::KernInstance(loc))),
+        })
+    } else {
+        json!({"error": "bad request"})
+    }
+}
 
 pub fn run(_args: &[String]) -> i32 {
-    eprintln!("vh persist: not implemented yet");
-    2
+    std::panic::set_hook(Box::new(|_| {}));
+    let stdin = std::io::stdin();
+    let stdout = std::io::stdout();
+    let mut out = stdout.lock();
+    for line in stdin.lock().lines() {
+        let Ok(line) = line else { break };
+        if line.trim().is_empty() {
+            continue;
+        }
+        let req: Value = match serde_json::from_str(&line) {
+            Ok(v) => v,
+            Err(e) => {
+                eprintln!("bad request: {e}");
+                return 2;
+            }
+        };
+        let res = std::panic::catch_unwind(|| one(&req))
+            .unwrap_or_else(|p| json!({"outcome": "panic", "message": crate::compile::panic_message(p)}));
+        let _ = writeln!(out, "{res}");
+    }
+    0
 }
